@@ -341,7 +341,7 @@ var Prop = &fw.Prop{
 		"Get (every encoding and data type, wildcards and regular-expression metacharacters in names and key values, prefix on/off, target *, no paths, extensions), Subscribe streams (no prefix, entries without path, poll before subscribe, duplicate, unknown message), " +
 		"admin RollbackTransaction of any index, LeafSelectionQuery with/without change context, GetTransaction, Capabilities; plus the text primitives (MatchWildcardRegexp, ExtractIndexNames, RemovePathIndices, AnonymizePathIndices, FindPathFromModel, IsPathValid) on raw strings and, exhaustively, on every string of length <= 3 (thorough: 4) over {a * . \\ [ ] = ( $}. " +
 		"Every handler call and every reconcile step runs under recover(). Non-trivial = the case holds at least one Set, Get, Subscribe or LeafSelectionQuery.",
-	Quick: 1100, Thorough: 40000, Workers: 12,
+	Quick: 4000, Thorough: 40000, Workers: 12,
 	Gen: gen, Enumerate: enumerate,
 	NewReal:     func() fw.Real { return nbreal.New() },
 	Monitor:     monitor,
